@@ -222,7 +222,9 @@ func (p *Prog) callersOf(fn *ssa.Function) []Site {
 	n := cg.Nodes[fn]
 	var out []Site
 	seen := map[ssa.CallInstruction]bool{}
-	add := func(n *callgraph.Node) {
+	wrapSeen := map[*callgraph.Node]bool{}
+	var add func(n *callgraph.Node)
+	add = func(n *callgraph.Node) {
 		if n == nil {
 			return
 		}
@@ -231,6 +233,11 @@ func (p *Prog) callersOf(fn *ssa.Function) []Site {
 				continue
 			}
 			if !p.AllFuncs[e.Caller.Func] {
+				// a bound-method / thunk wrapper (method value passed as a function): its callers are the real call sites
+				if f := e.Caller.Func; f != nil && f.Synthetic != "" && (strings.HasSuffix(f.Name(), "$bound") || strings.HasSuffix(f.Name(), "$thunk")) && !wrapSeen[e.Caller] {
+					wrapSeen[e.Caller] = true
+					add(e.Caller)
+				}
 				continue
 			}
 			seen[e.Site] = true
@@ -730,22 +737,23 @@ func factStrings(fs []Fact) []string {
 }
 
 func hasFact(fs []string, sub ...string) bool {
-	for _, f := range fs {
-		all := true
-		for _, s := range sub {
-			if !strings.Contains(f, s) {
-				all = false
-				break
+	// "!(" as the first pattern: the fact is a negation; every equivalent spelling of a comparison is tried (equivForms)
+	wantNeg := len(sub) > 0 && sub[0] == "!("
+	if wantNeg {
+		sub = sub[1:]
+	}
+	for _, f0 := range fs {
+		for _, f := range equivForms(f0) {
+			if wantNeg && !strings.HasPrefix(f, "!") {
+				continue
 			}
-		}
-		if all {
-			return true
+			if matchOrdered(f, sub) {
+				return true
+			}
 		}
 	}
 	return false
 }
-
-// ---------- misc type helpers ----------
 
 func namedOf(t types.Type) *types.Named {
 	for {
@@ -1152,6 +1160,33 @@ func (p *Prog) closureTrueCond(mc *ssa.MakeClosure) dnf {
 			})] = true
 		}
 		out = append(out, n)
+	}
+	return out
+}
+
+
+// withFuncValues: fn, its function literals, and the named same-package functions it passes around as values (a closure
+// turned into a named function stays in view).
+func withFuncValues(fn *ssa.Function) []*ssa.Function {
+	out := withAnons(fn)
+	seen := map[*ssa.Function]bool{}
+	for _, g := range out {
+		seen[g] = true
+	}
+	for _, g := range append([]*ssa.Function{}, out...) {
+		allInstrs(g, func(in ssa.Instruction) {
+			for _, op := range in.Operands(nil) {
+				h, ok := (*op).(*ssa.Function)
+				if !ok || seen[h] || len(h.Blocks) == 0 || pkgRelOf(h) != pkgRelOf(fn) {
+					continue
+				}
+				if ci, isCall := in.(ssa.CallInstruction); isCall && ci.Common().Value == ssa.Value(h) {
+					continue // a plain call, not a value
+				}
+				seen[h] = true
+				out = append(out, withAnons(h)...)
+			}
+		})
 	}
 	return out
 }
